@@ -556,4 +556,506 @@ example :
     access st2 false [109] [[102]] = some 6 := by
   decide
 
+/-! ## 6. sequences of configuration options
+
+`applyOpts` folds ANY sequence of options (WithGlobal(s), WithoutGlobal(s), WithGlobalOverride,
+WithoutDefaultGlobals — any names, dotted or not, repeated, in any order) into the fields of
+`Config`; `initFrom` is `Config.init` with the iteration orders of the two Go maps as
+parameters.  The theorems hold for every sequence and every iteration order. -/
+
+theorem mem_denylist_foldl (opts : List Opt) (c : Cfg) (n : Name) :
+    n ∈ (opts.foldl applyOpt c).denylist ↔ n ∈ c.denylist ∨ Opt.without n ∈ opts := by
+  induction opts generalizing c with
+  | nil => simp
+  | cons o opts ih =>
+    simp only [List.foldl_cons]
+    rw [ih]
+    cases o with
+    | withGlobal m v => simp [applyOpt]
+    | override m v => simp [applyOpt]
+    | noDefaults => simp [applyOpt]
+    | without m =>
+      by_cases hc : c.denylist.contains m = true
+      · have hm : m ∈ c.denylist := by simpa using hc
+        simp only [applyOpt, hc, ↓reduceIte, List.mem_cons, Opt.without.injEq]
+        constructor
+        · rintro (h | h)
+          · exact Or.inl h
+          · exact Or.inr (Or.inr h)
+        · rintro (h | h | h)
+          · exact Or.inl h
+          · exact Or.inl (h ▸ hm)
+          · exact Or.inr h
+      · simp only [applyOpt, hc, Bool.false_eq_true, ↓reduceIte, List.mem_append, List.mem_singleton,
+          List.mem_cons, Opt.without.injEq, List.not_mem_nil, or_false]
+        constructor
+        · rintro ((h | h) | h)
+          · exact Or.inl h
+          · exact Or.inr (Or.inl h)
+          · exact Or.inr (Or.inr h)
+        · rintro (h | h | h)
+          · exact Or.inl (Or.inl h)
+          · exact Or.inl (Or.inr h)
+          · exact Or.inr h
+
+/-- The denylist after the whole sequence holds exactly the names some `WithoutGlobal(s)` of the
+    sequence mentions — wherever it stands: no other option ever takes a name off it. -/
+theorem mem_denylist (opts : List Opt) (n : Name) :
+    n ∈ (applyOpts opts).denylist ↔ deniedIn opts n = true := by
+  unfold applyOpts deniedIn
+  rw [mem_denylist_foldl]
+  simp [Cfg.empty]
+
+/-- **Last override wins.** Appending `WithGlobalOverride(m, v)` to any sequence makes `v` the
+    override in force for `m` and changes no other name's override. -/
+theorem lastOverride_append (opts : List Opt) (n m : Name) (v : Id) :
+    lastOverride (opts ++ [.override m v]) n = if m = n then some v else lastOverride opts n := by
+  simp only [lastOverride, applyOpts, List.foldl_append, List.foldl_cons, List.foldl_nil, applyOpt]
+  exact tget_tput _ m v n
+
+/-- … and no option of another kind changes an override. -/
+theorem lastOverride_append_other (opts : List Opt) (o : Opt) (n : Name)
+    (h : ∀ m v, o ≠ .override m v) : lastOverride (opts ++ [o]) n = lastOverride opts n := by
+  simp only [lastOverride, applyOpts, List.foldl_append, List.foldl_cons, List.foldl_nil]
+  cases o with
+  | override m v => exact absurd rfl (h m v)
+  | withGlobal m v => rfl
+  | without m => rfl
+  | noDefaults => rfl
+
+/-- **The final binding of every top-level name, for every option sequence** (closed form of
+    the code as it is).  For every sequence `opts`, default table, heap, every enumeration
+    `ds` of the denylist and `os` of the overrides (= every iteration order of the two Go maps)
+    and every undotted name `n`:
+    * if an override for `n` is in force, `n` is bound to it;
+    * otherwise, if `n` was denied ANYWHERE in the sequence, `n` is unbound — a
+      `WithGlobal(n, ·)` before or after the denial does not bring it back, and neither do
+      the defaults;
+    * otherwise `n` has its merged (host/default) binding. -/
+theorem optseq_top_binding (opts : List Opt) (dflt : Table) (mods : List (Id × Table))
+    (back : List (Id × Id)) (ds : List Name) (os : Table) (n : Name)
+    (hn : undotted n = true)
+    (hds : EnumSet (applyOpts opts).denylist ds) (hos : EnumMap (applyOpts opts).overrides os) :
+    tget (initFrom (applyOpts opts) dflt mods back ds os).globals n =
+      match lastOverride opts n with
+      | some v => some v
+      | none =>
+        if deniedIn opts n then none
+        else tget (mergeDefaults (applyOpts opts).noDefaults (applyOpts opts).globals dflt) n := by
+  have hsplit : splitDots n = [n] := by simpa [undotted] using hn
+  unfold initFrom initCfg
+  cases hlo : lastOverride opts n with
+  | some v =>
+    show tget (St.globals (List.foldl _ _ _)) n = some v
+    apply overrides_globals_hit
+    · intro pv hpv hk
+      obtain ⟨kv, hkv, rfl⟩ := List.mem_map.1 hpv
+      have hkn : kv.1 = n := splitDots_single _ _ hk
+      have := hos.1 kv hkv
+      rw [hkn] at this
+      have h2 : tget (applyOpts opts).overrides n = some v := hlo
+      rw [h2] at this
+      exact (Option.some.inj this).symm
+    · right
+      exact ⟨(splitDots n, v), List.mem_map.2 ⟨(n, v), hos.2 n v hlo, rfl⟩, hsplit⟩
+  | none =>
+    show tget (St.globals (List.foldl _ _ _)) n = _
+    rw [overrides_globals_miss, denies_globals]
+    · have hiff : [n] ∈ ds.map splitDots ↔ deniedIn opts n = true := by
+        rw [← mem_denylist, ← hds n]
+        constructor
+        · intro h
+          obtain ⟨m, hm, hk⟩ := List.mem_map.1 h
+          exact (splitDots_single _ _ hk) ▸ hm
+        · intro h
+          exact List.mem_map.2 ⟨n, h, hsplit⟩
+      by_cases hd : deniedIn opts n = true
+      · simp [hd, hiff.2 hd]
+      · have : ¬ [n] ∈ ds.map splitDots := fun h => hd (hiff.1 h)
+        simp [hd, this]
+    · intro pv hpv hk
+      obtain ⟨kv, hkv, rfl⟩ := List.mem_map.1 hpv
+      have hkn : kv.1 = n := splitDots_single _ _ hk
+      have := hos.1 kv hkv
+      rw [hkn] at this
+      have h2 : tget (applyOpts opts).overrides n = none := hlo
+      rw [h2] at this
+      cases this
+
+/-- **The code meets the Spec for option sequences**: for every sequence, iteration order and
+    top-level name, the final binding is one `allowedTop` permits. -/
+theorem optseq_meets_spec (opts : List Opt) (dflt : Table) (mods : List (Id × Table))
+    (back : List (Id × Id)) (ds : List Name) (os : Table) (n : Name)
+    (hn : undotted n = true)
+    (hds : EnumSet (applyOpts opts).denylist ds) (hos : EnumMap (applyOpts opts).overrides os) :
+    allowedTop opts n (tget (initFrom (applyOpts opts) dflt mods back ds os).globals n) = true := by
+  rw [optseq_top_binding opts dflt mods back ds os n hn hds hos]
+  unfold allowedTop
+  cases lastOverride opts n with
+  | some v => simp
+  | none =>
+    by_cases hd : deniedIn opts n = true
+    · simp [hd]
+    · simp [hd]
+
+/-- **A denied name stays denied.** If `WithoutGlobal(n)` occurs anywhere in the sequence and no
+    override for `n` is in force, `n` is unbound in the end — whatever else the sequence
+    contains (in particular `WithGlobal(n, v)` AFTER the denial) and whatever `n`'s default is. -/
+theorem optseq_denied_stays_denied (opts : List Opt) (dflt : Table) (mods : List (Id × Table))
+    (back : List (Id × Id)) (ds : List Name) (os : Table) (n : Name)
+    (hn : undotted n = true)
+    (hds : EnumSet (applyOpts opts).denylist ds) (hos : EnumMap (applyOpts opts).overrides os)
+    (hden : deniedIn opts n = true) (hov : lastOverride opts n = none) :
+    tget (initFrom (applyOpts opts) dflt mods back ds os).globals n = none := by
+  rw [optseq_top_binding opts dflt mods back ds os n hn hds hos, hov]
+  simp [hden]
+
+/-- … and so no identifier or import path through `n` exists at all. -/
+theorem optseq_denied_access_fails (opts : List Opt) (dflt : Table) (mods : List (Id × Table))
+    (back : List (Id × Id)) (ds : List Name) (os : Table) (n : Name)
+    (hn : undotted n = true)
+    (hds : EnumSet (applyOpts opts).denylist ds) (hos : EnumMap (applyOpts opts).overrides os)
+    (hden : deniedIn opts n = true) (hov : lastOverride opts n = none)
+    (imp : Bool) (attrs : List Name) :
+    access (initFrom (applyOpts opts) dflt mods back ds os) imp n attrs = none := by
+  have h0 := optseq_denied_stays_denied opts dflt mods back ds os n hn hds hos hden hov
+  unfold access
+  simp only [h0]
+  induction attrs with
+  | nil => rfl
+  | cons a r ih => simpa [List.foldl_cons] using ih
+
+/-- **An override in force is the binding**, whatever the rest of the sequence does to the name
+    (deny it, supply it, override it earlier). -/
+theorem optseq_override_visible (opts : List Opt) (dflt : Table) (mods : List (Id × Table))
+    (back : List (Id × Id)) (ds : List Name) (os : Table) (n : Name) (v : Id)
+    (hn : undotted n = true)
+    (hds : EnumSet (applyOpts opts).denylist ds) (hos : EnumMap (applyOpts opts).overrides os)
+    (hov : lastOverride opts n = some v) :
+    tget (initFrom (applyOpts opts) dflt mods back ds os).globals n = some v := by
+  rw [optseq_top_binding opts dflt mods back ds os n hn hds hos, hov]
+
+/-- the hypotheses are satisfiable and the statement bites: deny `exec` (default object 7), then
+    supply the host's own object 9 under the same name — `exec` is unbound, in both iteration
+    orders; the Spec rejects the default object as its binding and accepts `none` and 9. -/
+example :
+    let opts := [Opt.without [101], Opt.withGlobal [101] 9]
+    EnumSet (applyOpts opts).denylist [[101]] ∧ EnumMap (applyOpts opts).overrides [] ∧
+    tget (initFrom (applyOpts opts) [([101], 7)] [] [] [[101]] []).globals [101] = none ∧
+    allowedTop opts [101] (some 7) = false ∧ allowedTop opts [101] none = true ∧
+    allowedTop opts [101] (some 9) = true ∧
+    allowedTop [Opt.withGlobal [101] 9, Opt.without [101]] [101] (some 9) = false := by
+  refine ⟨?_, ?_, by decide, by decide, by decide, by decide, by decide⟩
+  · intro x; simp [applyOpts, applyOpt, Cfg.empty]
+  · refine ⟨?_, ?_⟩
+    · intro kv h; cases h
+    · intro k v h; simp [applyOpts, applyOpt, Cfg.empty, tget] at h
+
+/-! ### module members under sequences of edits -/
+
+/-- one edit never ADDS an attribute to any module: what is not a member stays not a member -/
+theorem edit_keeps_absent (edit : St → St) (he : IsEdit edit) (st : St) (x : Id) (a : Name)
+    (t : Table) (ht : st.table x = some t) (ha : tget t a = none) :
+    ∃ t', (edit st).table x = some t' ∧ tget t' a = none := by
+  have key : ∀ (mname : Name) (attr : List Name) (v : Option Id),
+      ∃ t', (editMember resolveImpl st mname attr v).table x = some t' ∧ tget t' a = none := by
+    intro mname attr v
+    rcases editMember_cases resolveImpl st mname attr v with h0 | ⟨_, _, last, tm, _, _, _, _, h1⟩
+    · rw [h0]; exact ⟨t, ht, ha⟩
+    · rw [h1]
+      rcases overrideMod_cases st tm last v with h2 | h2
+      · rw [h2]; exact ⟨t, ht, ha⟩
+      · rw [h2]
+        have hm : mtable st.mods x = some t := ht
+        refine ⟨if x = tm then editTable last v t else t, ?_, ?_⟩
+        · show mtable (modsUpdate st.mods tm (editTable last v)) x = _
+          rw [mtable_modsUpdate, hm]; rfl
+        · by_cases hx : x = tm
+          · simp only [hx, ↓reduceIte]
+            cases v with
+            | none =>
+              show tget (terase t last) a = none
+              rw [tget_terase]; simp [ha]
+            | some y =>
+              show tget (treplace t last y) a = none
+              rw [tget_treplace]; simp [ha]
+          · simp only [hx, ↓reduceIte]; exact ha
+  cases he with
+  | deny parts =>
+    match parts with
+    | [] => exact ⟨t, ht, ha⟩
+    | [n] => exact ⟨t, ht, ha⟩
+    | mname :: b :: r => exact key mname (b :: r) none
+  | override parts v =>
+    match parts with
+    | [] => exact ⟨t, ht, ha⟩
+    | [n] => exact ⟨t, ht, ha⟩
+    | mname :: b :: r => exact key mname (b :: r) (some v)
+
+/-- **Config.init never adds a member to a module**, for every list of denylist entries and
+    overrides in every order (`Module.Override` refuses names that are not current
+    attributes). -/
+theorem init_never_adds_members (st : St) (ds : List (List Name)) (os : List (List Name × Id))
+    (x : Id) (a : Name) (t : Table) (ht : st.table x = some t) (ha : tget t a = none) :
+    ∃ t', (initCfg st ds os).table x = some t' ∧ tget t' a = none := by
+  unfold initCfg
+  have hd : ∀ (ds : List (List Name)) (st : St) (t : Table), st.table x = some t → tget t a = none →
+      ∃ t', (ds.foldl denyParts st).table x = some t' ∧ tget t' a = none := by
+    intro ds
+    induction ds with
+    | nil => intro st t ht ha; exact ⟨t, ht, ha⟩
+    | cons p ds ih =>
+      intro st t ht ha
+      obtain ⟨t1, h1, h2⟩ := edit_keeps_absent _ (IsEdit.deny p) st x a t ht ha
+      exact ih _ t1 h1 h2
+  have ho : ∀ (os : List (List Name × Id)) (st : St) (t : Table), st.table x = some t → tget t a = none →
+      ∃ t', (os.foldl (fun s pv => overrideParts s pv.1 pv.2) st).table x = some t' ∧ tget t' a = none := by
+    intro os
+    induction os with
+    | nil => intro st t ht ha; exact ⟨t, ht, ha⟩
+    | cons pv os ih =>
+      intro st t ht ha
+      obtain ⟨t1, h1, h2⟩ := edit_keeps_absent _ (IsEdit.override pv.1 pv.2) st x a t ht ha
+      exact ih _ t1 h1 h2
+  obtain ⟨t1, h1, h2⟩ := hd ds st t ht ha
+  exact ho os _ t1 h1 h2
+
+/-- **A denied member stays denied.** Once `Override(a, nil)` removed attribute `a` from module
+    `tm`, NO further list of denylist entries and overrides (any names, any order — including
+    `WithGlobalOverride("….a", v)` for the same name) makes `tm.a` resolve again. -/
+theorem denied_member_stays_denied (st : St) (tm : Id) (a : Name) (tbl : Table)
+    (ha : a ≠ dunderName) (htab : st.table tm = some tbl) (hget : (tget tbl a).isSome = true)
+    (ds : List (List Name)) (os : List (List Name × Id)) :
+    attrStep (initCfg (overrideMod st tm a none) ds os) tm a = none := by
+  have h0 : (overrideMod st tm a none).table tm = some (terase tbl a) := by
+    rw [overrideMod_eq st tm a none tbl ha htab hget]
+    have hm : mtable st.mods tm = some tbl := htab
+    show mtable (modsUpdate st.mods tm (editTable a none)) tm = _
+    rw [mtable_modsUpdate, hm]; simp [editTable]
+  obtain ⟨t', h1, h2⟩ := init_never_adds_members _ ds os tm a _ h0 (tget_terase_self tbl a)
+  simp [attrStep, h1, ha, h2]
+
+/-! ## 7. a reused virtual machine
+
+`vmBegin` is `RunCode` up to the first instruction on a VM with ANY history; `vmAccess` is what
+a script compiled against configuration `g` obtains in that run. -/
+
+theorem foldl_bind_none (f : Id → Name → Option Id) (attrs : List Name) :
+    attrs.foldl (fun cur a => cur.bind fun x => f x a) none = none := by
+  induction attrs with
+  | nil => rfl
+  | cons a r ih => simpa [List.foldl_cons] using ih
+
+/-- **Identifiers on a reused VM see exactly the run's own configuration.** For every VM state
+    (any earlier runs with any configurations: `vm` is arbitrary), every heap, every
+    configuration `g` and every access path that starts with an identifier: the result in the
+    run is the result the configuration alone determines.  Nothing an earlier configuration
+    bound — a member it kept, an object it had under the same name — is observable. -/
+theorem reuse_ident_own_config (mods : List (Id × Table)) (back : List (Id × Id)) (vm : VM)
+    (g : Table) (hg : IsMap g) (first : Name) (attrs : List Name) :
+    vmAccess mods back (vmBegin mods vm g) g false first attrs =
+      access ⟨g, mods, back⟩ false first attrs := by
+  unfold vmAccess access
+  have hstart : (if (tget g first).isSome then tget (vmBegin mods vm g).globals first else none) =
+      (match tget g first with
+        | some x => if false && !(⟨g, mods, back⟩ : St).isModule x then none else some x
+        | none => none) := by
+    cases hf : tget g first with
+    | none => simp
+    | some x =>
+      simp only [Option.isSome_some, ↓reduceIte, Bool.false_and, Bool.false_eq_true]
+      show tget (putAll vm.input g) first = some x
+      apply putAll_hit
+      · intro kv hkv hk
+        have := hg kv.1 kv.2 hkv
+        rw [hk, hf] at this
+        exact (Option.some.inj this).symm
+      · exact Or.inr ⟨(first, x), tget_mem hf, rfl⟩
+  simp only [Bool.false_eq_true, ↓reduceIte]
+  rw [hstart]
+  rfl
+
+/-- **Imports on a VM that has run before fail** (as the code is: `resetForNewCode` empties
+    the importable modules after the options were applied) — so no module of an earlier
+    configuration can be imported in a later run. -/
+theorem reuse_import_later_runs (mods : List (Id × Table)) (back : List (Id × Id)) (vm : VM)
+    (g : Table) (h : vm.runs ≠ 0) (first : Name) (attrs : List Name) :
+    vmAccess mods back (vmBegin mods vm g) g true first attrs = none := by
+  unfold vmAccess
+  have : (vmBegin mods vm g).modules = [] := by
+    simp [vmBegin, vmApply, h]
+  simp only [this, ↓reduceIte, tget]
+  exact foldl_bind_none _ attrs
+
+/-- **Imports in the first run of a fresh VM obtain only what the configuration holds**: the
+    result is a failure or exactly the configuration's own result. -/
+theorem reuse_import_first_run (mods : List (Id × Table)) (back : List (Id × Id))
+    (g : Table) (hg : IsMap g) (first : Name) (attrs : List Name) :
+    vmAccess mods back (vmBegin mods VM.empty g) g true first attrs = none ∨
+    vmAccess mods back (vmBegin mods VM.empty g) g true first attrs =
+      access ⟨g, mods, back⟩ true first attrs := by
+  unfold vmAccess access
+  simp only [↓reduceIte]
+  cases hm : tget (vmBegin mods VM.empty g).modules first with
+  | none => left; exact foldl_bind_none _ attrs
+  | some x =>
+    right
+    have hmem : (first, x) ∈ (vmBegin mods VM.empty g).modules := tget_mem hm
+    have hmem2 : (first, x) ∈ putAll [] ((putAll [] g).filter fun kv => isMod mods kv.2) := hmem
+    rcases mem_putAll _ _ _ hmem2 with h | h
+    · cases h
+    · obtain ⟨h1, h2⟩ := List.mem_filter.1 h
+      rcases mem_putAll _ _ _ h1 with h3 | h3
+      · cases h3
+      · have hgx : tget g first = some x := hg first x h3
+        have hmod : (⟨g, mods, back⟩ : St).isModule x = true := h2
+        simp only [hgx, hmod, Bool.not_true, Bool.and_false, Bool.false_eq_true, ↓reduceIte]
+        rfl
+
+/-- an evaluation whose source does not compile (unbound identifier) yields nothing, exactly
+    as `vmAccess` says; so the theorems about `vmAccess (vmBegin …)` describe every evaluation -/
+theorem vmEval_result (mods : List (Id × Table)) (back : List (Id × Id)) (vm : VM) (g : Table)
+    (imp : Bool) (first : Name) (attrs : List Name) :
+    (vmEval mods back vm g imp first attrs).2 =
+      vmAccess mods back (vmBegin mods vm g) g imp first attrs := by
+  unfold vmEval
+  split
+  · rename_i h
+    simp only [Bool.and_eq_true, Bool.not_eq_eq_eq_not, Bool.not_true, Option.isNone_iff_eq_none] at h
+    unfold vmAccess
+    simp only [h.1, Bool.false_eq_true, ↓reduceIte, h.2, Option.isSome_none]
+    exact (foldl_bind_none _ attrs).symm
+  · rfl
+
+theorem vmRuns_runs (hist : List (List (Id × Table) × Table)) (vm : VM) :
+    (vmRuns vm hist).runs = vm.runs + hist.length := by
+  induction hist generalizing vm with
+  | nil => rfl
+  | cons h hist ih =>
+    show (vmRuns (vmBegin h.1 vm h.2) hist).runs = _
+    rw [ih]
+    simp only [vmBegin, vmApply, List.length_cons]
+    omega
+
+/-- **Every evaluation on a reused VM sees only its own configuration.** For every history of
+    earlier runs on a VM created empty (any number, any configurations, any heaps), the next
+    run with configuration `g` gives, for every access path: by identifier exactly what `g`
+    alone determines; by import either a failure or what `g` alone determines. -/
+theorem reuse_each_run_sees_own_config (hist : List (List (Id × Table) × Table))
+    (mods : List (Id × Table)) (back : List (Id × Id)) (g : Table) (hg : IsMap g)
+    (first : Name) (attrs : List Name) :
+    vmAccess mods back (vmBegin mods (vmRuns VM.empty hist) g) g false first attrs =
+      access ⟨g, mods, back⟩ false first attrs ∧
+    (vmAccess mods back (vmBegin mods (vmRuns VM.empty hist) g) g true first attrs = none ∨
+     vmAccess mods back (vmBegin mods (vmRuns VM.empty hist) g) g true first attrs =
+      access ⟨g, mods, back⟩ true first attrs) := by
+  refine ⟨reuse_ident_own_config mods back _ g hg first attrs, ?_⟩
+  cases hist with
+  | nil => exact reuse_import_first_run mods back g hg first attrs
+  | cons h r =>
+    left
+    apply reuse_import_later_runs
+    rw [vmRuns_runs]
+    simp
+
+/-- non-vacuity: run 1 with `os`(1) = {getenv ↦ 2}, run 2 with a fresh `os`(5) = {} (member
+    removed), same name, no new name: run 2's `os.getenv` fails and `os` is module 5. -/
+example :
+    let mods : List (Id × Table) := [(1, [([103], 2)]), (5, [])]
+    let vm1 := vmBegin mods VM.empty [([111, 115], 1)]
+    vmAccess mods [] vm1 [([111, 115], 1)] false [111, 115] [[103]] = some 2 ∧
+    vmAccess mods [] (vmBegin mods vm1 [([111, 115], 5)]) [([111, 115], 5)] false [111, 115] [[103]] = none ∧
+    vmAccess mods [] (vmBegin mods vm1 [([111, 115], 5)]) [([111, 115], 5)] false [111, 115] [] = some 5 := by
+  decide
+
+/-! ## 8. a configuration built later on the same heap -/
+
+theorem reach_closed (g : Graph) (roots : List Id) :
+    Closed g (reach g roots) ∧ ∀ r ∈ roots, r ∈ reach g roots :=
+  reachAux_closed g g.length roots g (fun e he => Or.inl he) (Nat.le_refl _)
+
+/-- if the set reachable in `g'` is closed under the edges of `g`, everything reachable in `g`
+    is reachable in `g'` -/
+theorem reach_subset_of_closed (g g' : Graph) (roots : List Id)
+    (hc : Closed g (reach g' roots)) (t : Id) (h : t ∈ reach g roots) : t ∈ reach g' roots := by
+  obtain ⟨r, hr, p, hp⟩ := (reach_sound_complete g roots t).1 h
+  exact closed_path g _ hc r p t ((reach_closed g' roots).2 r hr) hp
+
+/-- **Edges that start outside the reachable set add nothing**: for every graph, root set and
+    set of extra edges none of which leaves a reachable node, reachability is unchanged. -/
+theorem reach_extend (g extra : Graph) (roots : List Id)
+    (h : ∀ e ∈ extra, e.src ∉ reach g roots) (t : Id) :
+    t ∈ reach (g ++ extra) roots ↔ t ∈ reach g roots := by
+  constructor
+  · apply reach_subset_of_closed
+    intro e he hsrc
+    rcases List.mem_append.1 he with h1 | h1
+    · exact (reach_closed g roots).1 e h1 hsrc
+    · exact absurd hsrc (h e h1)
+  · exact reach_mono g (g ++ extra) (fun e he => List.mem_append.2 (Or.inl he)) roots t
+
+theorem global_reachable (st : St) (k : Name) (x : Id) (h : (k, x) ∈ st.globals) :
+    x ∈ reach (graphOf st) [root] :=
+  (reach_sound_complete _ _ _).2 ⟨root, by simp, [x],
+    ⟨⟨root, .ident k, x⟩, ident_edge_mem h, rfl, rfl⟩, rfl⟩
+
+/-- **Building another configuration creates no path for this one.** `addConfig` allocates
+    modules and builtins (with back-pointers) that this configuration cannot reach and writes
+    nothing that exists (`Builtin.module` is never re-aimed, no existing table is touched).
+    Then for EVERY object: it is reachable from this configuration's globals afterwards iff it
+    was before — a denied object stays unreachable whatever is built later. -/
+theorem later_config_no_new_paths (st : St) (newMods : List (Id × Table)) (newBack : List (Id × Id))
+    (h1 : ∀ it ∈ newMods, it.1 ∉ reach (graphOf st) [root])
+    (h2 : ∀ bm ∈ newBack, bm.1 ∉ reach (graphOf st) [root]) (t : Id) :
+    t ∈ reach (graphOf (addConfig st newMods newBack)) [root] ↔ t ∈ reach (graphOf st) [root] := by
+  constructor
+  · apply reach_subset_of_closed
+    intro e he hsrc
+    rcases edge_cases _ e he with ⟨k, hk, _, _⟩ | ⟨tb, k, htb, _, hk⟩ | ⟨hb, _⟩
+    · exact global_reachable st k e.dst hk
+    · rcases List.mem_append.1 htb with h | h
+      · exact (reach_closed _ _).1 ⟨e.src, .attr k, e.dst⟩ (member_edge_mem (st := st) h hk) hsrc
+      · exact absurd hsrc (h1 _ h)
+    · rcases List.mem_append.1 hb with h | h
+      · exact (reach_closed _ _).1 ⟨e.src, .back, e.dst⟩ (back_edge_mem (st := st) h) hsrc
+      · exact absurd hsrc (h2 _ h)
+  · apply reach_subset_of_closed
+    intro e he hsrc
+    rcases edge_cases _ e he with ⟨k, hk, _, _⟩ | ⟨tb, k, htb, _, hk⟩ | ⟨hb, _⟩
+    · exact global_reachable (addConfig st newMods newBack) k e.dst hk
+    · exact (reach_closed _ _).1 ⟨e.src, .attr k, e.dst⟩
+        (member_edge_mem (st := addConfig st newMods newBack) (List.mem_append.2 (Or.inl htb)) hk) hsrc
+    · exact (reach_closed _ _).1 ⟨e.src, .back, e.dst⟩
+        (back_edge_mem (st := addConfig st newMods newBack) (List.mem_append.2 (Or.inl hb))) hsrc
+
+/-- configuration A: `os`(1) = {exit ↦ 2, getenv ↦ 3}; a later configuration B has its own
+    module 5 = {exit ↦ 2, getenv ↦ 3} built from the SAME builtin objects, whose back-pointers
+    now lead to module 5 -/
+def sharedBuiltinWitness : St :=
+  { globals := [([111, 115], 1)],
+    mods := [(1, [([101], 2), ([103], 3)]), (5, [([101], 2), ([103], 3)])],
+    back := [(2, 5), (3, 5)] }
+
+/-- **Why builtins must not be shared between module instances.** If a later configuration's
+    module is built from the same builtin objects and their `__module__` follows it, denying
+    `os.exit` in configuration A leaves the object reachable from A:
+    `os.getenv.__module__.exit`.  (The hypotheses of `later_config_no_new_paths` and
+    `SoleMember` exclude exactly this.) -/
+theorem shared_builtin_defeats_deny :
+    reachable (graphOf (denyParts sharedBuiltinWitness [[111, 115], [101]])) [root] 2 = true ∧
+    access (denyParts sharedBuiltinWitness [[111, 115], [101]]) false [111, 115] [[101]] = none ∧
+    access (denyParts sharedBuiltinWitness [[111, 115], [101]]) false [111, 115]
+      [[103], dunderModule, [101]] = some 2 := by
+  decide
+
+/-- non-vacuity of `later_config_no_new_paths`: A = `os`(1) = {exit ↦ 2} with `os.exit` denied;
+    B brings module 5 = {exit ↦ 6} with builtin 6 ↦ 5; object 2 is unreachable before and
+    after B is built. -/
+example :
+    let a := denyParts { globals := [([111, 115], 1)], mods := [(1, [([101], 2)])], back := [(2, 1)] } [[111, 115], [101]]
+    (∀ it ∈ [((5 : Id), ([([101], 6)] : Table))], it.1 ∉ reach (graphOf a) [root]) ∧
+    (∀ bm ∈ [((6 : Id), (5 : Id))], bm.1 ∉ reach (graphOf a) [root]) ∧
+    reachable (graphOf (addConfig a [(5, [([101], 6)])] [(6, 5)])) [root] 2 = false := by
+  decide
+
 end Risor.C11
